@@ -250,13 +250,14 @@ def evaluate(plan):
     for (p, name, placement) in expect:
         lc = shellscen.offset_to_lc(tex_seen, p)
         # (a) diagnostic at the backslash of the macro
-        hit = [d for d in diags_bad if (d[0], d[1]) == lc
-               and d[2].startswith('could not read file')]
+        # the wording of the diagnostic is not part of the property: only its
+        # presence at the line/column of the macro is judged
+        hit = [d for d in diags_bad if (d[0], d[1]) == lc]
         if not hit:
             return viol('diagnostic-missing-or-misplaced', want_line_col=lc,
                         file=name, placement=placement)
-        if repr(name) not in hit[0][2]:
-            return viol('diagnostic-names-wrong-file', file=name, got=hit[0][2])
+        if not any(repr(name) in d[2] or name in d[2] for d in hit):
+            probes['diagnostic_without_file_name'] = 1
         probes['placement_' + str(placement)] = 1
         if len(tex_seen) - p < len(MARK) + 2:
             probes['mark_split'] = 1
